@@ -21,8 +21,9 @@ What is modelled exactly
   and `pick_surjective` shows every candidate is reachable.
 * `NodeIDAllocator.alloc` with `bi.wrap`/`bi.mod` on Python ints.
 
-The model describes the code AFTER the `fix:` for D7 (`_find_next` compares the relative
-address `i - addr_offset` with `size`).
+The model describes the code AFTER the two `fix:` commits of C16: D7 (`_find_next` compares the
+relative address `i - addr_offset` with `size`) and D-C16-1 (`free` ignores addresses below
+`addr_offset` instead of indexing the array with a negative number).
 
 Not modelled: `reserve()` (public, not used by Bus/Buffer), `PowerOfTwoAllocator`,
 `LRUNumberAllocator`, `StackNumberAllocator`, `RingNumberAllocator`, `alloc_perm/free_perm`
@@ -263,15 +264,17 @@ def CBA.mergeNext (a : CBA) (block : Block) : M CBA := do
 def CBA.free (a : CBA) (addr : Option Nat) : M CBA :=
   match addr with
   | none => pure a
-  | some addr => do
-    match ← a.cell addr with
-    | none => pure a
-    | some b0 =>
-      if !b0.used then pure a
-      else do
-        let (a, block) ← a.markFree addr b0
-        let (a, block) ← a.mergePrev addr block
-        a.mergeNext block
+  | some addr =>
+    if addr < a.off then pure a        -- not an address of this allocator (second `fix:` of C16)
+    else do
+      match ← a.cell addr with
+      | none => pure a
+      | some b0 =>
+        if !b0.used then pure a
+        else do
+          let (a, block) ← a.markFree addr b0
+          let (a, block) ← a.mergePrev addr block
+          a.mergeNext block
 
 /-- `ContiguousBlockAllocator(size, pos, addr_offset)`; `none` = `IndexError` (`pos ≥ size`). -/
 def CBA.init (size pos off : Nat) : Option CBA :=
